@@ -53,12 +53,13 @@ StepSet == { s \in SmallAngle \cup Pyth \cup Wide \cup NearRight \cup Exact : In
 MkWalk(xi, ai, s) == <<XS[xi][1], XS[xi][2], XS[xi][3], XS[xi][4], XS[xi][5], AXS[ai][1], AXS[ai][2], AXS[ai][3], AXS[ai][4], s[1], s[2], s[3]>>
 \* the whole walk must stay on the oriented side: sin(j psi) > 0 for j = 1..m (m psi < pi), or psi = 0
 Oriented(ww) == WP(ww) = 0 \/ \A jj \in 1..WM(ww) : ZSign(ArcAng(ww, jj).s) > 0
-\* quick: one (x, axis) per step, rotating through the lists; thorough: three
+\* quick: one (x, axis) per step, rotating through the lists; thorough: two (the machine itself only walks through the first)
 Mix(s, r) == (s[1] % 97) * 7 + (s[2] % 89) * 5 + s[3] * 3 + r * 11
-Walks == { ww \in { MkWalk((Mix(s, r) % Len(XS)) + 1, ((Mix(s, r) \div 3) % Len(AXS)) + 1, s) : s \in StepSet, r \in (IF Thorough THEN 0..2 ELSE 0..0) } : Oriented(ww) }
+WalkOf(s, r) == MkWalk((Mix(s, r) % Len(XS)) + 1, ((Mix(s, r) \div 3) % Len(AXS)) + 1, s)
+Walks == { ww \in { WalkOf(s, r) : s \in StepSet, r \in (IF Thorough THEN 0..1 ELSE 0..0) } : Oriented(ww) }
 
 \* ---------------------------------------------------------------- the machine
-ModelWalks == { ww \in Walks : WalkBits(<<WP(ww), WQ(ww), WM(ww)>>) <= (IF WM(ww) = 1 THEN 190 ELSE ModelBudget) }
+ModelWalks == { ww \in { WalkOf(s, 0) : s \in StepSet } : Oriented(ww) /\ WalkBits(<<WP(ww), WQ(ww), WM(ww)>>) <= (IF WM(ww) = 1 THEN 190 ELSE ModelBudget) }
 Init == /\ w \in ModelWalks
         /\ j = 0 - 2 * WM(w)
         /\ cur = WalkCur(w, 0 - 2 * WM(w))
